@@ -254,12 +254,16 @@ CHECKS["C05"] = {
     "design_ref": "DESIGN.md §2 C05",
     "jobs": [{"bin": "e2_prog", "args": ["--family", "num"], "deadline": {"quick": 420, "thorough": 3000}},
              {"bin": "e2_prog", "args": ["--family", "num", "--alpha", "2", "--maxn", "2", "--second", "1"], "deadline": {"quick": 300, "thorough": 1200}},
-             {"bin": "c09_inter", "deadline": {"quick": 300, "thorough": 2400}}],
+             {"bin": "c09_inter", "deadline": {"quick": 300, "thorough": 2400}},
+             {"bin": "e3_hist", "args": ["--mode", "pairs"], "deadline": {"quick": 300, "thorough": 2400}}],
     "rule": ("the C01 program space restricted to programs with a cycle, every domain / fixpoint parameter tuple: the forward analysis must finish "
              "within 20000 fixpoint iterations (ascending + descending, counted by the tick hook placed in the wto cycle loops, the kill/gen "
              "iterator, the forward-backward refinement loop and the inter-procedural recursion). max.max_fixpoint_ticks reports the maximum observed. "
              "Job 2: n<=2 blocks, 25-statement alphabet, two-statement blocks. Job 3: every top-down and bottom-up inter-procedural analysis of the C09 call-graph space (recursive functions, precise recursion "
-             "fixpoints) under a budget of 3000 iterations (the maximum observed on the unchanged tree is below 100)."),
+             "fixpoints) under a budget of 3000 iterations (the maximum observed on the unchanged tree is below 100). "
+             "Job 4 (widening chains): per domain/config, for ALL ordered pairs (A,B) of the C04 pool of reachable values: acc:=A; repeat { nw:=acc|B; "
+             "stop if nw<=acc; acc:=acc||nw } with the plain widening and with widening_thresholds must stop within 40 steps by the domain's own "
+             "inclusion test (the engine's ascending loop for a body that always yields B)."),
     "assumptions": ["budget 20000 is >50x the maximum observed on the unchanged tree; a violation is replayable because the budget is an iteration count, not wall-clock time"],
     "level_text": "Complete enumeration of the stated program space; non-termination is a deterministic, replayable verdict.",
     "level_note": "Widening/narrowing soundness clauses (result contains the arguments) are checked at operator level by C03/C04/C08.",
